@@ -512,12 +512,12 @@ func enumerate(t *testing.T) {
 
 func TestC02(t *testing.T) {
 	defer rig.StopAll()
-	rec.SetRule("each case = 1..3 scripted raw-TCP backends (refuse, close/reset before headers, garbage, complete, fault after headers / after k body bytes with close|rst|stall, truncated chunked, short Content-Length; bodies 0..256 KiB self-identifying; 0..6 random headers) x engine x proxy profile x balancer, one POST through the full stack read byte-for-byte; single-fault shapes are enumerated in front of a healthy second backend, combinations are rapid-generated. Sub-check 'concurrent': 2..16 clients at a time receive complete self-identifying bodies (1 KB..2 MiB, needing many reads) from 2..3 backends; each response must be byte for byte the body of the backend its X-Backend-Id names. non-trivial = >=2 endpoints and the first-dispatched backend fails after writing its status line; distinct by (engine, profile, balancer, fault/framing tuple, first backend)")
+	rec.SetRule("each case = 1..3 scripted raw-TCP backends (refuse, close/reset before headers, garbage, complete, fault after headers / after k body bytes with close|rst|stall, truncated chunked, short Content-Length; bodies 0..256 KiB self-identifying; 0..6 random headers) x engine x proxy profile x balancer, one POST through the full stack read byte-for-byte; single-fault shapes are enumerated in front of a healthy second backend, combinations are rapid-generated. Sub-check 'concurrent': 2..32 clients, each sending 4..30 requests back to back, receive complete self-identifying bodies (1 KB..2 MiB, needing many reads) from 2..3 backends; each response must be byte for byte the body of the backend its X-Backend-Id names. non-trivial = >=2 endpoints and the first-dispatched backend fails after writing its status line; distinct by (engine, profile, balancer, fault/framing tuple, first backend)")
 	rec.Assume("a truncated response delivered as a prefix of one attempt is allowed; only mixing, duplication or alteration is a violation")
 	if ev.Replay(t, rec, "fault", runCase) || ev.Replay(t, rec, "concurrent", runConc) {
 		return
 	}
 	enumerate(t)
 	ev.Check(t, rec, "fault", rec.Pick(250, 1500), genCase, runCase)
-	ev.Check(t, rec, "concurrent", rec.Pick(12, 200), genConc, runConc)
+	ev.Check(t, rec, "concurrent", rec.Pick(20, 300), genConc, runConc)
 }
